@@ -29,7 +29,7 @@ ASSUMPTIONS = [
     "line orientation (fbus/tbus, the flag direction_changed and the buses' from/to lists, re-derived by every load flow and restored to the as-built orientation by create_sections) is not part of the compared reset state; its irrelevance for the results is covered by the byte-identity of the result files in (b) - which include a second Monte Carlo run on the same Simulation object -, by C15 and by the re-preparation class of C20",
 ]
 F = Fraction
-ORIENTATION = {"fromline", "fromline_list", "toline", "toline_list", "nextbus", "fbus", "tbus", "direction_changed", "repair_time_dist"}
+ORIENTATION = {"fromline", "fromline_list", "toline", "toline_list", "nextbus", "fbus", "tbus", "repair_time_dist"}
 
 
 def fresh(spec, n_inc, seed=0):
@@ -155,6 +155,11 @@ def gen(rng, n_reset, n_mc):
             faults.setdefault(str(rng.randint(max(1, n_inc - 2), n_inc)), []).append(["trafo", ps0.get_comp(f"F0L{quiet_bus}").tbus.name, "6"])
         case["faults"] = faults
         cases.append(case)
+    # corpus: minimised past failures run first (the witness of fix "a reset turns the lines back ...")
+    import json as _json, os as _os
+    wp = _os.path.join(_os.path.dirname(__file__), "corpus", "c08_orientation_witness.json")
+    if _os.path.exists(wp):
+        cases.append(_json.load(open(wp)))
     for j in range(n_mc):
         # alternately manual control and an ICT-based main controller
         spec = net.rand_feeder_spec(rng, max_lines=4, ctrl=["main", "manual"][j % 2], allow_tie=False)
